@@ -106,6 +106,10 @@ def gen_design(r, features=("cname", "attr", "param", "names", "latch", "conn", 
                 # the reader represents type and init-val as (single-bit) nets named by the token
                 pins += [("type", None, (r.choice(["re", "fe", "ah"]), None)), ("control", None, r.choice(nets)),
                          ("init-val", None, (r.choice(["0", "1", "2", "3"]), None))]
+                if r.random() < 0.3:
+                    # .latch is positional: an open operand in the middle is spelled unconn and keeps its place
+                    k_ = r.choice([2, 3])
+                    pins[k_] = (pins[k_][0], None, None)
             it = {"kind": "latch", "model": "generic-latch", "pins": pins, "cname": None, "attr": {}, "param": {}, "covers": [],
                   "order": order}
             nets.append(out)
@@ -119,6 +123,8 @@ def gen_design(r, features=("cname", "attr", "param", "names", "latch", "conn", 
             it["cname"] = fresh("$inst$c")
         if "attr" in features and r.random() < 0.3:
             it["attr"] = {"src": "file.v:%d" % uid[0]}
+            if r.random() < 0.3:
+                it["attr"]["keep"] = "1"
         if "param" in features and r.random() < 0.3:
             it["param"] = {"INIT": "".join(r.choice("01") for _ in range(8))}
             for k_ in range(r.choice([0, 0, 1, 2, 9])):      # several .param lines on one instance (and ten of them)
@@ -222,12 +228,16 @@ def write(design, r, style=True):
                 out.append(c)
         else:
             wrap([fmt_bit(nb) for p, b, nb in it["pins"]], ".latch")
+        info = []
         if it["cname"]:
-            out.append(cont(".cname", it["cname"]))
+            info.append(cont(".cname", it["cname"]))
         for k, v in it["attr"].items():
-            out.append(cont(".attr", k, v) if " " not in str(v) else ".attr %s %s" % (k, v))
+            info.append(cont(".attr", k, v) if " " not in str(v) else ".attr %s %s" % (k, v))
         for k, v in it["param"].items():
-            out.append(cont(".param", k, v) if " " not in str(v) else ".param %s %s" % (k, v))
+            info.append(cont(".param", k, v) if " " not in str(v) else ".param %s %s" % (k, v))
+        if style and r.random() < 0.3:
+            r.shuffle(info)         # the lines that follow an instance come in any order (.param before .cname, ...)
+        out.extend(info)
     for a, b in design["conns"]:
         out.append(cont(".conn", fmt_bit(a), fmt_bit(b)))
     out.append(".end")
@@ -255,7 +265,7 @@ def expected(design):
         typ = {"subckt": "EBLIF.subckt", "gate": "EBLIF.gate", "names": "EBLIF.names", "latch": "EBLIF.latch"}[it["kind"]]
         insts[it["order"]] = {"name": name, "model": it["model"], "type": typ, "cname": it["cname"], "attr": dict(it["attr"]),
                               "param": dict(it["param"]),
-                              "unconn": ["%s[%d]" % (p, b or 0) for p, b, nb in it["pins"] if nb is None and it["kind"] in ("subckt", "gate")],
+                              "unconn": ["%s[%d]" % (p, b or 0) for p, b, nb in it["pins"] if nb is None and it["kind"] in ("subckt", "gate", "latch")],
                               "covers": list(it["covers"])}
     return insts
 
